@@ -42,10 +42,15 @@ ALPHABET = {
     "N(__)": ("N", "destr", 0, "__"),
     # two bindings, one of them non-ASCII: no single binding to take the name from
     "N2(a,λ)": ("N2", "destr", 1, ("vx", "λ")),
+    # a top-level binding with a sub-pattern (`whole @ (_, _)`): one binding, the trait method declares just the identifier
+    "x@(_,_)": ("tup", "destr", 3, None),
+    "x@[..]": ("arr", "destr", 2, None),
     "N(r#kw)": ("N", "destr", 0, "r#type"),
     "&r#id": ("refi", "destr", 0, "r#v_raw"),
 }
 IMPL_ALPHABET_EXTRA = {"=__impl": ("i32", "plain", 0, "__impl"), "N(=__impl)": ("N", "destr", 0, "__impl"), "=__impl_": ("i32", "plain", 0, "__impl_")}
+# symbols added after round 8: enumerated exhaustively up to length 2 only (plus samples), to keep the quick tier quick
+LATE_SYMBOLS = {"N(é)", "N(__)", "N2(a,λ)", "x@(_,_)", "x@[..]"}
 SPECIAL_ONCE = {"N(é)", "N(__)", "N(_u)", "N(=fn_)", "mut =fn", "ref =fn", "N(r#kw)", "&r#id", "r#=arg0", "=fn", "=fn_", "=fn__", "=arg0", "=arg1", "=_arg1", "N(=fn)", "r#=fn"}
 
 
@@ -296,18 +301,28 @@ def build_cases(lists, label, variants, fn_name=FN):
 
 def run(tier, seed):
     rep = core.Report(PROP, tier, seed)
-    rep.rule = ("all parameter pattern lists of length <= L over the alphabet %s (a binding name occurs at most once per list), "
+    rep.rule = ("all parameter pattern lists of length <= L over the alphabet %s (a binding name occurs at most once per list; the five symbols "
+                "added last - non-ASCII / all-underscore bindings, `x @ sub-pattern` - exhaustively up to length 2 and sampled at length 3), "
                 "each as fn with deps and as no_deps fn (thorough: also async and module mode); sampled lists of length L+1. "
                 "the lists of length <= 2 plus sampled longer ones (alphabet + `__impl`, `N(__impl)`, `__impl_`) also as parameters of a fn in an "
                 "entraited impl block, static and dynamic selection (names of the generated target-trait method distinct, compiles, trait call = direct call). "
                 "Checked: naming rules on the recorded trait method, the case compiles, C01 differential oracle at run time. "
                 "non-trivial = list contains a non-plain pattern or a colliding name" % sorted(ALPHABET))
     syms = sorted(ALPHABET)
+    core_syms = [s_ for s_ in syms if s_ not in LATE_SYMBOLS]
     L = 3
     lists = [()]
     for n in range(1, L + 1):
-        lists += [l for l in itertools.product(syms, repeat=n) if valid(l)]
+        lists += [l for l in itertools.product(core_syms, repeat=n) if valid(l)]
+    for n in range(1, 3):
+        lists += [l for l in itertools.product(syms, repeat=n) if valid(l) and any(s_ in LATE_SYMBOLS for s_ in l)]
     rng = core.rng_for(PROP, seed)
+    late3 = set()
+    while len(late3) < (3000 if tier == "quick" else 12000):
+        l = tuple(rng.choice(syms) for _ in range(3))
+        if valid(l) and any(s_ in LATE_SYMBOLS for s_ in l):
+            late3.add(l)
+    lists += sorted(late3)
     sample_n = 800 if tier == "quick" else 4000
     extra = set()
     while len(extra) < sample_n:
@@ -346,7 +361,7 @@ def run(tier, seed):
     cases += impl_cases
     if tier != "quick":
         cases += build_cases(lists, "v", [(False, True, "fn"), (False, False, "mod"), (True, True, "fn")])
-        l4 = [l for l in itertools.product(syms, repeat=4) if valid(l)]
+        l4 = [l for l in itertools.product(core_syms, repeat=4) if valid(l)]
         cases += build_cases(l4, "f", [(False, False, "fn")])
         rep.extra["exhaustive_length_4_lists_with_deps"] = len(l4)
     # the corpus is processed in chunks of <= 40 000 cases (one workspace each): the token trees recorded for 200 000
